@@ -79,6 +79,10 @@ UNI = "ünï-文件-😀.txt"
 UNIDIR = "дир"
 SIZES = [0, 1, 15, 16, 17, 1023, 1024, 1025, 5000]
 BASE_ALPHABET = ["", ".", "..", "a", "sub", "a/b", "/", "/etc", "x\0y", "@LONG", "@UNI"]  # + "@D0".."@Dk" at run time
+# characters that string-matching code is known to treat specially (line ends for regular expressions and
+# str.splitlines, C0/C1 controls, Unicode separators, the other platform's separator); used to decorate components
+SPECIALS = ["\n", "\r", "\r\n", "\t", "\x0b", "\x0c", "\x1c", "\x1f", "\x7f", "\x85", "\u2028", "\u2029", " ", "\\", "\ufeff"]
+SPECIAL_SET = set("".join(SPECIALS)) - {" ", "\\"}
 EXT_ALPHABET = ["%2e%2e", "\\", "~", "...", " ", "．．", "a∕b"]
 PUT_BODY = b"C19-PUT-BODY"
 
@@ -367,7 +371,8 @@ class World:
                 i = int(t[2:])
                 out.append(self.secret_chain[i] if i < len(self.secret_chain) else "nochain%d" % i)
             else:
-                out.append(t)
+                # placeholders may be embedded in a decorated component ("@ABS_SECRET\n")
+                out.append(t.replace("@ABS_SECRET", self.outside + "/secret.txt").replace("@ABS_OUT/", self.outside + "/").replace("@ABS_NEW", self.outside + "/planted-by-slash"))
         return out
 
     def comp_class(self, p):
@@ -382,6 +387,8 @@ class World:
             c += "A" if p.startswith("/") else "S"
         if "\0" in p:
             c += "N"
+        if any(ch in SPECIAL_SET for ch in p):
+            c += "C"
         if len(p.encode("utf8")) >= 255:
             c += "L"
         if c:
@@ -652,7 +659,7 @@ def directed_cases():
             paths.append(pre + ["@OUT"] + suf)
         for suf in root_suffixes:
             paths.append(pre + ["@ROOT"] + suf)
-    paths += [
+    explicit = [
         ["..", "outside", "secret.txt"],
         ["..", "outside", "new.txt"],
         ["..", "outside", ""],
@@ -683,10 +690,27 @@ def directed_cases():
         ["", "."],
         ["", "nonexistent-at-fs-root-c19"],
     ]
+    paths += explicit
     for w in (0, 1):
         for m in (GET, PUT, DELETE, POST):
             for p in paths:
                 yield {"k": "dir", "w": w, "m": m, "p": p}
+    # every path-significant component (navigation entry, embedded or leading slash) of the directed paths once
+    # more with each special character put before it, behind it and inside it: a validation that recognises the
+    # component by pattern must not be put off by the decoration
+    seen = set()
+    for p in explicit + [["", "@OUT", ".", "secret.txt"], ["", "@OUT", "..", "outside", "secret.txt"]]:
+        for i, c in enumerate(p):
+            if not ("/" in c or c in (".", "..") or c.startswith("@ABS")):
+                continue
+            for s in SPECIALS:
+                for d in (c + s, s + c, c[: len(c) // 2] + s + c[len(c) // 2 :] if not c.startswith("@") else c + s + "x"):
+                    q = p[:i] + [d] + p[i + 1 :]
+                    if tuple(q) in seen:
+                        continue
+                    seen.add(tuple(q))
+                    for w, m in ((0, GET), (1, GET), (1, PUT), (1, DELETE), (0, PUT)):
+                        yield {"k": "dir", "w": w, "m": m, "p": q}
 
 
 def block_cases(files):
